@@ -127,3 +127,35 @@ package jobcontroller
 //@   ensures [C12] sweep-complete: result1 == nil && (killDueAt(rj, old(clock)) || parallelDecidedKill(rj)) ==>
 //@        (forall j int :: 0 <= j && j < len(tasks) && unfinished(tasks[j]) && notDeleting(tasks[j]) ==> jobtasks.delReq[jobtasks.taskName(tasks[j])])
 //@   ensures [C12] cached-job-untouched: *rj == old(*rj)
+
+// ---- pending timeout -----------------------------------------------------------------------------------------------------
+
+//@ pure notRunning(t jobtasks.Task) bool = jobtasks.taskRefOf(t).RunningTimestamp.IsZero()
+//@ pure createdNs(t jobtasks.Task) Int = ns(jobtasks.taskRefOf(t).CreationTimestamp.Time)
+//@ pure pendingNs(rj *execution.Job, cfg *configv1alpha1.JobExecutionConfig) Int = job.pendingTimeoutSeconds(rj, cfg) * 1000000000
+//@ pure overdue(t jobtasks.Task, pt Int, now Int) bool = unfinished(t) && notRunning(t) && createdNs(t) + pt <= now
+
+//@ func Reconciler.handlePendingTasks
+//@   tags C12
+//@   requires w != nil && rj != nil && cfg != nil && rj.Spec.Template != nil
+//@   modifies jobtasks.delReq, jobtasks.forceReq, clock, wakeN, wakeKey, wakeAfter
+//@   loop 1 invariant -1 <= rangeindex && rangeindex < len(tasks) && deletingNames != nil && clock >= now.Unix() * 0 && ns(now) <= clock && ns(now) >= old(clock)
+//@   loop 1 invariant forall k int :: 0 <= k && k < len(needDelete) ==> inTasks(tasks, needDelete[k]) && overdue(needDelete[k], pendingTimeout, ns(now)) && notDeleting(needDelete[k])
+//@   loop 1 invariant forall j int :: 0 <= j && j <= rangeindex && overdue(tasks[j], pendingTimeout, ns(now)) && notDeleting(tasks[j]) ==> inTasks(needDelete, tasks[j])
+//@   loop 1 invariant forall n string :: (n in deletingNames) ==> (exists k int :: 0 <= k && k < len(needDelete) && jobtasks.taskName(needDelete[k]) == n)
+//@   loop 1 invariant forall k int :: 0 <= k && k < len(needDelete) ==> (jobtasks.taskName(needDelete[k]) in deletingNames)
+//@   loop 2 invariant -1 <= rangeindex && rangeindex < len(newRj.Status.Tasks) && len(newRefs) == rangeindex + 1
+//@   loop 2 invariant forall k int :: 0 <= k && k <= rangeindex ==> newRefs[k].Name == newRj.Status.Tasks[k].Name
+//@        && ((newRefs[k].Name in deletingNames) ==> newRefs[k].DeletedStatus != nil && newRefs[k].DeletedStatus.State == execution.TaskTerminated
+//@              && newRefs[k].DeletedStatus.Result == execution.TaskKilled && newRefs[k].DeletedStatus.Reason == "PendingTimeout")
+//@   ensures [C12] disabled-means-nothing: pendingNs(rj, cfg) <= 0 ==> (forall n string :: jobtasks.delReq[n] ==> old(jobtasks.delReq[n])) && result0 == rj && result1 == nil
+//@   ensures [C12] never-early: forall n string :: jobtasks.delReq[n] && !old(jobtasks.delReq[n]) ==>
+//@        (exists j int :: 0 <= j && j < len(tasks) && jobtasks.taskName(tasks[j]) == n && overdue(tasks[j], pendingNs(rj, cfg), clock) && notDeleting(tasks[j]))
+//@   ensures [C12] never-forced: forall n string :: jobtasks.forceReq[n] ==> old(jobtasks.forceReq[n])
+//@   ensures [C12] overdue-tasks-deleted: result1 == nil && pendingNs(rj, cfg) > 0 ==>
+//@        (forall j int :: 0 <= j && j < len(tasks) && overdue(tasks[j], pendingNs(rj, cfg), old(clock)) && notDeleting(tasks[j]) ==> jobtasks.delReq[jobtasks.taskName(tasks[j])])
+//@   ensures [C12] counted-as-killed-attempt: result0 != nil && result0 != rj ==> len(result0.Status.Tasks) == len(rj.Status.Tasks)
+//@        && (forall k int :: 0 <= k && k < len(rj.Status.Tasks) ==> result0.Status.Tasks[k].Name == rj.Status.Tasks[k].Name
+//@             && ((exists j int :: 0 <= j && j < len(tasks) && jobtasks.taskName(tasks[j]) == rj.Status.Tasks[k].Name && overdue(tasks[j], pendingNs(rj, cfg), old(clock)) && notDeleting(tasks[j]))
+//@                  ==> result0.Status.Tasks[k].DeletedStatus != nil && result0.Status.Tasks[k].DeletedStatus.Result == execution.TaskKilled && result0.Status.Tasks[k].DeletedStatus.Reason == "PendingTimeout"))
+//@   ensures [C12] cached-job-untouched: *rj == old(*rj)
